@@ -32,7 +32,9 @@
 //!               middle of term / vote / entry records; cuts around the long record, reopen, append, reopen.
 //!   (large entries also occur, rarely, in the random chain / snapshot / fail streams and in raw.*)
 //!
-//! Two oracles on the restarted REAL node at every cut, neither gated on the model:
+//! After every handler call: the votes the node has announced so far (before and after its restarts) never
+//! name two candidates for one term. Two oracles on the restarted REAL node at every cut, neither gated on
+//! the model:
 //!   record-derived  the obligations of the last completed handler call, released by the WAL records of the
 //!                   in-flight call that survive the cut (the model's `microG`);
 //!   order-derived   the entries acknowledged before the in-flight call, released only by what the ORDER
@@ -1082,6 +1084,7 @@ fn run_case_inner(cx: &mut Ctx, r: &mut Rng, case_no: u64, max_crashes: usize, s
     let mut key = String::new();
     let mut state_changes = 0u64;
     let mut after_install = false;
+    let mut double_vote_reported = false;
 
     for phase in 0..=max_crashes {
         let base_bytes = std::fs::read(&path).unwrap_or_default();
@@ -1244,6 +1247,27 @@ fn run_case_inner(cx: &mut Ctx, r: &mut Rng, case_no: u64, max_crashes: usize, s
                     }
                 }
             }
+            // the consequence the property names, on the node's own answers: never two candidates in one term
+            // (across any number of restarts: the ghost carries over what was announced before a crash)
+            if !double_vote_reported {
+                let mut prev: Option<(u64, u64)> = None;
+                for v in &ghost.votes {
+                    if let Some(p) = prev {
+                        if p.0 == v.0 && p.1 != v.1 {
+                            double_vote_reported = true;
+                            let mut h = history.clone();
+                            h.push(json!({"phase": phase, "ev": ev.line(), "reply": reply}));
+                            cx.rep.violation(
+                                "tensor_chain.raft.vote/two_candidates_in_one_term",
+                                &format!("the node announced its vote of term {} for n{} and for n{}", v.0, p.1, v.1),
+                                json!({"case": case_no, "history": h, "votes_announced": ghost.tok()}),
+                            );
+                            break;
+                        }
+                    }
+                    prev = Some(*v);
+                }
+            }
             let (voted_now, extra_now) = dump_fields(&lv.node);
             let imp = format!(
                 "recs={} reply={} state={}/{}/{}/{} {} {}",
@@ -1315,7 +1339,9 @@ fn run_case_inner(cx: &mut Ctx, r: &mut Rng, case_no: u64, max_crashes: usize, s
         } else if fr.iter().take(base_frames).any(|(s, e)| e - s > LONG_RECORD) && fr.len() > base_frames {
             cx.rep.hit("phase.records_behind_long_record_of_earlier_phase");
         }
-        if cx.thorough && file.len() - base_len <= 64 * 1024 {
+        // (thorough: every byte of a phase of ordinary size; a phase that wrote KiB-sized or longer records is
+        // cut like a quick one, with more random cuts)
+        if cx.thorough && file.len() - base_len <= 6 * 1024 {
             for n in base_len..=file.len() {
                 cuts.insert(n);
             }
@@ -2058,7 +2084,7 @@ const SIZES_CLASS: &str = "tensor_chain.raft_wal.replay/not_whole_record_prefix"
 /// entry and the TermAndVote of a granted vote after it), with the WAL configuration of `RaftNode::with_wal`.
 /// Oracles on the real WAL and the real node only: replay — on the writing handle and on a fresh one — returns
 /// every appended record that lies before the cut, in order (`from_entries` of them is what `from_wal`
-/// reports); `open` counts as many records as replay returns and leaves a file of complete frames alone; a
+/// reports); `open` counts no more records than replay returns and leaves a file of complete frames alone; a
 /// node started on the file has the term, the vote and the three entries. Then the file is cut just before /
 /// at / just after the end of the long record, just after its header and in its middle, reopened, appended
 /// to, and checked again. One size per boundary is also compared with the model (`recover`, `valid_len`,
@@ -2181,7 +2207,9 @@ fn run_sizes_raw(cx: &mut Ctx, thorough: bool) {
                     json!({"trace": trace, "long_record_payload_bytes": target, "got": imp, "want": want}));
             }
             if let Ok(es) = &rp {
-                if es.len() as u64 != counted {
+                // (the direction that loses something: frames `open` takes for complete records and appends
+                // behind, which recovery does not return)
+                if (es.len() as u64) < counted {
                     fine = false;
                     let class = if torn_seen { "tensor_chain.raft_wal.open/append_after_torn_tail" } else { "tensor_chain.raft_wal.replay/fewer_records_than_open_counted" };
                     cx.rep.violation(class,
@@ -2582,6 +2610,15 @@ fn main() {
         "install_cut.script.second_snapshot_over_acked_on_top", "cut.mid_snapshot_install.every_byte",
         "cut.real_node_only", "oracle.order_derived.evaluated", "oracle.order_derived.inside_install",
         "oracle.order_derived.inside_install_with_acked_entries",
+        "large.script.append_entries.class1", "large.script.append_entries.class2", "large.script.propose.class2",
+        "large.script.install_snapshot.class2", "large.script.first_entry_is_large.class1",
+        "large.script.last_record_is_large.class1", "large.script.two_large_in_one_call.class1",
+        "large.script.large_replaced_by_conflict.class1", "large.script.large_after_failed_append.class1",
+        "phase.wrote_long_record", "phase.records_behind_long_record", "phase.records_behind_long_record_of_earlier_phase",
+        "chain.restart_on_complete_file", "cuts.large_file", "cuts.huge_file", "case.size_mode.1",
+        "raw.long_record.class4", "oracle.sizes.replay", "oracle.sizes.node_restart",
+        "oracle.sizes.selftest.capped_reader_would_be_flagged", "sizes.cut.torn", "sizes.cut.boundary",
+        "sizes.payload.lt1K", "sizes.payload.1K-8K", "sizes.payload.8K-64K", "sizes.payload.64K-1M", "sizes.payload.1M-4M",
     ]
     .iter()
     .map(|s| s.to_string())
@@ -2763,5 +2800,13 @@ fn main() {
     }
     if std::env::var("C10_TIMES").is_ok() { eprintln!("end {:?}", t_all_end.elapsed()); }
     rep.note("votedFor of a restarted real node is observed through RequestVote probes on a throw-away copy (no getter exists)");
+    rep.note(&format!(
+        "large entries: a block command c >= {SIZE_UNIT} carries one Put of {:?} payload bytes for the size classes 1.. (c / {SIZE_UNIT}); serialized LogEntry / WAL record payload of the classes 1, 2: {} / {}, {} / {} bytes",
+        CLASS_PAYLOAD,
+        bitcode::serialize(&LogEntry::new(1, 2, mk_block(big(1, 2)))).unwrap().len(),
+        bitcode::serialize(&RaftWalEntry::LogEntryFull { index: 2, term: 1, entry_data: bitcode::serialize(&LogEntry::new(1, 2, mk_block(big(1, 2)))).unwrap() }).unwrap().len(),
+        bitcode::serialize(&LogEntry::new(1, 2, mk_block(big(2, 2)))).unwrap().len(),
+        bitcode::serialize(&RaftWalEntry::LogEntryFull { index: 2, term: 1, entry_data: bitcode::serialize(&LogEntry::new(1, 2, mk_block(big(2, 2)))).unwrap() }).unwrap().len(),
+    ));
     rep.write(&args.out);
 }
